@@ -183,6 +183,8 @@ def gen(case):
         R[i:i + k, i:i + k] = (A @ A.T + k * np.eye(k)) * rs * scale
         i += k
     x = rng.standard_normal(n) * np.sqrt(scale)
+    if rng.random() < 0.2:
+        x = np.zeros(n)             # an error-state (feedback) filter corrects from an exactly zero prior mean
     z = H @ x + rng.standard_normal(m) * np.sqrt(np.abs(np.diag(H @ P @ H.T + R)))
     return x, P, z, H, R, sizes
 
